@@ -49,7 +49,10 @@ Cause(L, up) == IF HasOffsBad(L, up) THEN "_offsets_variant"
 LiveCause(L, up) == IF HasDupCorrupt(L, up) THEN "_dup_shnum_corrupt_copy"
                     ELSE IF HasOffsBad(L, up) THEN "_offsets_variant" ELSE ""
 
-VLayout(e) == OK([L |-> NormL(e.L), up |-> ToSet(e.up), maps |-> <<>>, nv |-> e.nv])
+\* (keepmaps: the layout changed in the middle of an operation, after its survey - a server that serves something else at the
+\* second request: the maps recorded so far stay with the operation, which is judged against the layout it ends on)
+VLayout(e) == OK([L |-> NormL(e.L), up |-> ToSet(e.up),
+                  maps |-> IF "keepmaps" \in DOMAIN e /\ e.keepmaps THEN S.maps ELSE <<>>, nv |-> e.nv])
 
 VMap(e) ==
   LET M == NormM(e.M)
@@ -81,6 +84,11 @@ VRead(e) ==
       b == Best(V, ml.M)
   IN IF maps = <<>> \/ m1.mode # "READ" THEN R("harness", "harness_no_read_map", S)
      ELSE IF Rel("C10") /\ (e.res.kind = "livelock") THEN R("C10", "read_never_returns" \o LiveCause(L, S.up), T)
+     \* a read during which the servers changed what they serve (after the survey): which bytes the reader had fetched before
+     \* the change is not observable, so only the statement itself is judged - what is returned is a published version
+     ELSE IF "mid" \in DOMAIN e /\ e.mid THEN
+          (IF Rel("C10") /\ e.res.kind = "data" /\ (e.res.content \notin PublishedContents) THEN R("C10", "OnlyPublished_time_of_tamper", T)
+           ELSE OK(T))
      ELSE IF e.res.kind = "data" THEN
           (IF Rel("C10") /\ (e.res.content \notin PublishedContents) THEN R("C10", "OnlyPublished", T)
            ELSE IF Rel("C10") /\ (Available(L, m1.Q) /\ e.res.content # V[Newest(V)].content) THEN R("C10", "Available" \o cause, T)
